@@ -20,8 +20,9 @@ from fractions import Fraction
 
 sys.set_int_max_str_digits(0)
 VERIF = os.path.dirname(os.path.dirname(os.path.abspath(__file__)))
-EVIDENCE_DIR = os.path.join(VERIF, 'evidence')
-REPLAY_DIR = os.path.join(VERIF, 'replays')
+_OUT = os.environ.get('VERIF_OUT', VERIF)   # development aid, see vf.tracing.REPO_SRC
+EVIDENCE_DIR = os.path.join(_OUT, 'evidence')
+REPLAY_DIR = os.path.join(_OUT, 'replays')
 KNOWN_FILE = os.path.join(VERIF, 'known_findings.json')
 
 EXIT_OK, EXIT_VIOLATION, EXIT_HARNESS = 0, 1, 2
